@@ -42,6 +42,7 @@ import (
 	"errors"
 	"fmt"
 	"os/exec"
+	"path"
 	"strconv"
 	"strings"
 	"sync"
@@ -115,9 +116,10 @@ func ParseAr(b []byte) ([]ArMember, error) {
 type TarEntry struct {
 	Name string
 	Body []byte
-	Dir  bool  `json:",omitempty"`
-	Mode int64 `json:",omitempty"`
-	Fill int   `json:",omitempty"` // when > 0 (and Body is empty) the body is PatternBytes(Name, Fill): big files stay small in JSON
+	Dir  bool   `json:",omitempty"`
+	Mode int64  `json:",omitempty"`
+	Link string `json:",omitempty"` // "symlink:<target>" or "hardlink:<target>": the entry is a link (no body)
+	Fill int    `json:",omitempty"` // when > 0 (and Body is empty) the body is PatternBytes(Name, Fill): big files stay small in JSON
 }
 
 // Content is the body the entry is written with.
@@ -151,7 +153,11 @@ func BuildTar(entries []TarEntry) []byte {
 	w := tar.NewWriter(&b)
 	for _, e := range entries {
 		h := &tar.Header{Name: e.Name, ModTime: time.Unix(ArFixedTime, 0), Uname: "root", Gname: "root", Format: tar.FormatUSTAR}
-		if e.Dir {
+		if strings.HasPrefix(e.Link, "symlink:") {
+			h.Typeflag, h.Linkname, h.Mode = tar.TypeSymlink, strings.TrimPrefix(e.Link, "symlink:"), 0o777
+		} else if strings.HasPrefix(e.Link, "hardlink:") {
+			h.Typeflag, h.Linkname, h.Mode = tar.TypeLink, strings.TrimPrefix(e.Link, "hardlink:"), 0o644
+		} else if e.Dir {
 			h.Typeflag = tar.TypeDir
 			h.Mode = 0o755
 		} else {
@@ -165,7 +171,7 @@ func BuildTar(entries []TarEntry) []byte {
 		if err := w.WriteHeader(h); err != nil {
 			panic("gen.BuildTar: " + err.Error())
 		}
-		if !e.Dir {
+		if !e.Dir && e.Link == "" {
 			w.Write(e.Content())
 		}
 	}
@@ -581,7 +587,7 @@ func RenderDebControl(fields []DebField) []byte {
 //
 //	Binary          content of the debian-binary member ("" means the regular "2.0\n"; use BinaryRaw to force "")
 //	Fields          the control paragraph
-//	ControlEntries  names of the control-tar entries in order; the entry whose cleaned name is "control" gets the
+//	ControlEntries  names of the control-tar entries in order; the entry whose cleaned name (path.Clean) is "control" gets the
 //	                rendered paragraph, names ending in "/" become directories, every other entry gets a small
 //	                fixed body derived from its name, or PatternBytes(name, EntrySizes[name]) when a size is given
 //	DataFiles       entries of the data tar
@@ -591,7 +597,8 @@ type DebModel struct {
 	BinaryRaw      bool   `json:",omitempty"` // take Binary literally even when empty
 	Fields         []DebField
 	ControlEntries []string
-	EntrySizes     map[string]int `json:",omitempty"` // control-tar entry name -> size of its PatternBytes body (siblings of ./control)
+	EntryKinds     map[string]string `json:",omitempty"` // control-tar entry name -> "paragraph" (a valid but DIFFERENT control paragraph inside), "symlink:<target>", "hardlink:<target>"
+	EntrySizes     map[string]int    `json:",omitempty"` // control-tar entry name -> size of its PatternBytes body (siblings of ./control)
 	DataFiles      []TarEntry
 	ControlComp    string
 	DataComp       string
@@ -618,7 +625,11 @@ func (m DebModel) ControlTar() []byte {
 		switch {
 		case strings.HasSuffix(n, "/"):
 			es = append(es, TarEntry{Name: n, Dir: true})
-		case strings.TrimPrefix(n, "./") == "control":
+		case m.EntryKinds[n] == "paragraph":
+			es = append(es, TarEntry{Name: n, Body: []byte("Package: not-the-control-file\nVersion: 0\nArchitecture: all\nDescription: a file that merely looks like one\n")})
+		case strings.Contains(m.EntryKinds[n], "link:"):
+			es = append(es, TarEntry{Name: n, Link: m.EntryKinds[n]})
+		case path.Clean(n) == "control":
 			es = append(es, TarEntry{Name: n, Body: RenderDebControl(m.Fields)})
 		case m.EntrySizes[n] > 0:
 			es = append(es, TarEntry{Name: n, Fill: m.EntrySizes[n]})
